@@ -89,6 +89,8 @@ def batch_program(seqs, bi: int) -> Tuple[defx.Program, Dict[str, Any]]:
                              # user messages with ids the core definitions leave free below 100
                              "LOW_ID_STATUS": {"id": 95, "fields": {"a": "int32", "b": "double"}}, "LOW_ID_SIG": {"id": 3, "fields": None},
                              "LOW_ID_EDGE": {"id": 99, "fields": {"c": "char[8]"}},
+                             # ... and three-digit ids (with and without the digits 8 and 9)
+                             "ID_123": {"id": 123, "fields": None}, "ID_189": {"id": 189, "fields": {"a": "int8"}}, "ID_777": {"id": 777, "fields": None}, "ID_100": {"id": 100, "fields": None},
                              "_RESERVED_": {"id": [5990, "5992 - 5994"]}}}
     parts = [{"struct_defs": {}, "message_defs": {}}, {"struct_defs": {}, "message_defs": {}}, {"struct_defs": {}, "message_defs": {}}]
     meta = {}
@@ -208,6 +210,9 @@ def m_expect(sp, name):
 def num(v):
     if isinstance(v, str):
         v = v.strip().strip('"').strip("'")
+        # (C reads a literal with a leading zero as octal - and refuses it when it has a digit 8 or 9)
+        if len(v) > 1 and v[0] == "0" and v.isdigit():
+            return int(v, 8) if all(ch in "01234567" for ch in v) else f"invalid C literal {v}"
         try:
             return int(v, 0)
         except ValueError:
